@@ -532,7 +532,35 @@ def o_chain(c):
     return None
 
 
-ORACLES = {'chain': o_chain, 'reverse': o_reverse, 'shift': o_shift, 'shift_identity': o_shift_identity, 'shuffle': o_shuffle, 'sort': o_sort, 'slice': o_slice, 'split': o_split}
+def producer_of(spec):
+    """spec -> function(source annotation) -> list of result annotations (all non-in-place)"""
+    op = spec[0]
+    if op == 'slice':
+        return lambda a: [a.slice(i, j) for i, j in spec[1]]
+    if op == 'split':
+        return lambda a: list(a.split())
+    if op == 'reverse':
+        return lambda a: [a.reverse(swap_terms=spec[1])]
+    if op == 'shift':
+        return lambda a: [a.shift(spec[1])]
+    if op == 'shuffle':
+        return lambda a: [a.shuffle(spec[1])]
+    if op == 'sort':
+        return lambda a: [a.sort_residues()]
+    if op == 'copy':
+        return lambda a: [a.copy()]
+    if op == 'condense':
+        return lambda a: [a.condense_static_mods(inplace=False)]
+    raise KeyError(op)
+
+
+def o_sharing(c):
+    """results must not share mutable state with their source, with each other or with later calls"""
+    _, d, spec = c
+    return cc.sharing_failure(d, producer_of(spec), f'{spec}')
+
+
+ORACLES = {'sharing': o_sharing, 'chain': o_chain, 'reverse': o_reverse, 'shift': o_shift, 'shift_identity': o_shift_identity, 'shuffle': o_shuffle, 'sort': o_sort, 'slice': o_slice, 'split': o_split}
 
 
 # ------------------------------------------------------------------------------------------------ corpus
@@ -683,6 +711,21 @@ def run(chk):
         chk.correspond('chain', DRV, chains, chain_line, chain_impl, compare=lambda im, m: im == canon_reply(m),
                        nontrivial_fn=nontrivial)
     cc.ranked_oracle(chk, 'chain', chains, o_chain, classify, key_fn=repr, nontrivial_fn=lambda c: nontrivial(c, None))
+
+    # ---------------------------------------------------------------- results must not share mutable state
+    share = []
+    for a in (anns if tier == 'thorough' else anns[::2]):
+        n = len(a._sequence)
+        if n < 1 or cc.out_of_range_keys(a):
+            continue
+        d = annot.dump(a, sort_internal=False)
+        pairs = [(0, n), (0, max(1, n // 2)), (n // 2, n)] + [tuple(sorted((rng.randint(0, n), rng.randint(0, n)))) for _ in range(2)]
+        for spec in (['slice', [list(p) for p in pairs]], ['split'], ['reverse', rng.random() < 0.5], ['shift', rng.randint(-n, n)],
+                     ['shuffle', rng.randint(0, 999)], ['sort'], ['copy']):
+            share.append(('sharing', d, spec))
+        if a._static_mods is not None and cc.mass_of(a)[0] == 'ok':
+            share.append(('sharing', d, ['condense']))
+    chk.oracle('sharing', share, o_sharing, nontrivial_fn=lambda c: nontrivial(c, None), key_fn=repr)
 
     if tier == 'thorough':
         chk.exhaustive = True   # i,j and shift amounts are enumerated completely for every generated annotation
